@@ -393,3 +393,75 @@ Example recheck_nontrivial :
   outs (sh (run repaired_all false (init P_g [Recv false]) (sched_g_thread ++ [2; 0; 0; 0; 0; 0; 0]))) =
     [Raised DisconnectedError].
 Proof. vm_compute. repeat split. Qed.
+
+(* ------------------------------------------------------------------------------------ *)
+(* Headline theorems for the source as it stands after fix commits 748d97f and fee3be8    *)
+(* (`repaired_all`: __disconnect_final also sets input_event; receive() re-tests the      *)
+(* buffer before raising out of the connected wait / because `connected` is False)        *)
+(* ------------------------------------------------------------------------------------ *)
+
+(* TimeoutError is raised only while no event is available: the timer raises only out of the
+   wait on the input flag, with that flag clear and every buffered item still being handed
+   off; the application task itself raises TimeoutError only right after finding the buffer
+   empty *)
+Theorem timeout_only_if_empty_repaired P C c c' l : mreach repaired_all (init P C) c ->
+  (tstep repaired_all c = Some (c', l) -> In (LRaise TimeoutError) l ->
+     pc c = RIW WBlocked /\ iev (sh c) = false /\
+     List.length (buf (sh c)) <= count mid_handoff (prods c)) /\
+  (cstep repaired_all c = Some (c', l) -> In (LRaise TimeoutError) l ->
+     buf (sh c) = [] /\ hd LDone l = LBufTest false).
+Proof.
+  intro Hr. split.
+  - intros E Hin.
+    pose proof (recheck_timer_raises_only_in_input_wait repaired_all c c' l eq_refl E Hin) as Hp.
+    destruct (timeout_only_if_empty repaired_all P C c c' l Hr E) as [[H _]|H]; [congruence|exact H].
+  - intros E Hin. unfold cstep in E. simpl in E.
+    destruct (pc c) as [|[]| |[]| | | | |[]| | |]; simpl in E;
+      repeat match type of E with
+             | context [match ?x with _ => _ end] => destruct x eqn:?; simpl in E
+             end; try discriminate; inv_some; simpl in Hin;
+      repeat (destruct Hin as [Hin|Hin]; try discriminate); try contradiction; auto.
+Qed.
+Example timeout_only_if_empty_repaired_nontrivial :
+  let c := run repaired_all false (init P_j [Recv true]) (sched_j ++ [1]) in
+  pc c = RCkT /\ buf (sh c) = [item_a] /\
+  outs (sh (run repaired_all false c [0; 0])) = [Returned item_a].
+Proof. vm_compute. repeat split. Qed.
+
+(* DisconnectedError is raised only once the connection has ended for good; receive() raises
+   it only right after finding the buffer empty (the events received before have been
+   returned); emit()/call() only at a step that reads `connected` as False *)
+Theorem disconnected_after_drain_repaired P C c c' l : mreach repaired_all (init P C) c ->
+  cstep repaired_all c = Some (c', l) -> In (LRaise DisconnectedError) l ->
+  ended (sh c) = true /\
+  (recv_pc (pc c) = true -> buf (sh c) = [] /\ hd LDone l = LBufTest false) /\
+  (recv_pc (pc c) = false -> conn (sh c) = false).
+Proof.
+  intros Hr E Hin. split; [exact (proj1 (disconnected_only_after_final repaired_all P C c c' l Hr E Hin))|].
+  split.
+  - intro Hp. apply (recheck_raises_only_if_empty repaired_all c c' l eq_refl E Hp). left. exact Hin.
+  - intro Hp. unfold cstep in E. simpl in E.
+    destruct (pc c) as [|[]| |[]| | | | |[]| | |]; simpl in E, Hp; try discriminate;
+      repeat match type of E with
+             | context [match ?x with _ => _ end] => destruct x eqn:?; simpl in E
+             end; try discriminate; inv_some; simpl in Hin;
+      repeat (destruct Hin as [Hin|Hin]; try discriminate); try contradiction; auto.
+Qed.
+Example disconnected_after_drain_repaired_nontrivial :
+  let c := run repaired_all false (init P_d [Recv false; Recv false]) (sched_d ++ [0]) in
+  pc c = RCkD /\ buf (sh c) = [item_a] /\
+  outs (sh (run repaired_all false c [0; 0; 2; 0; 0; 0; 0])) = [Returned item_a; Raised DisconnectedError].
+Proof. vm_compute. repeat split. Qed.
+
+(* once the connection has ended for good every pending and every later call terminates,
+   under any schedule that gives the application task enough turns (every fair one) *)
+Theorem no_hang P C c sched : mreach repaired_all (init P C) c -> after_final c ->
+  7 * List.length (cscript c) <= turns sched ->
+  pc (run repaired_all false c sched) = CDone.
+Proof. intros. apply (no_hang_repaired_fair repaired_all P C); auto. Qed.
+Example no_hang_nontrivial :
+  let c := run repaired_all false (init P_g [Recv false; Recv true]) (sched_g_thread ++ [2]) in
+  after_final c /\ pc c = RIW WNotified /\
+  outs (sh (run repaired_all false c [1; 0; 2; 0; 0; 1; 0; 0; 0; 0; 3; 0; 0; 0; 0; 0; 0])) =
+    [Raised DisconnectedError; Raised DisconnectedError].
+Proof. vm_compute. repeat split. Qed.
